@@ -36,7 +36,24 @@ def main():
                 s = os.path.join(a.repo, f)
                 (shutil.copytree if os.path.isdir(s) else shutil.copy)(s, os.path.join(tmp, f))
             ok_apply = True
-            for (fn, old, new) in m["edits"]:
+            for ed in m["edits"]:
+                if ed[0] == "re":
+                    # global regular-expression rename over all source files: ("re", pattern, replacement)
+                    import glob
+                    hits = 0
+                    for p in glob.glob(os.path.join(tmp, "src", "*.rs")) + glob.glob(os.path.join(tmp, "tests", "*.rs")) + glob.glob(os.path.join(tmp, "benches", "*.rs")):
+                        if len(ed) > 3 and not p.endswith(ed[3]):
+                            continue
+                        txt = open(p).read()
+                        new_txt, n_ = re.subn(ed[1], ed[2], txt)
+                        hits += n_
+                        if n_:
+                            open(p, "w").write(new_txt)
+                    if hits == 0:
+                        ok_apply = False
+                        break
+                    continue
+                (fn, old, new) = ed
                 p = os.path.join(tmp, fn)
                 txt = open(p).read()
                 if txt.count(old) != 1:
